@@ -120,7 +120,7 @@ pub fn run(args: &Args) -> i32 {
     cases.extend(crate::props::census::cases(args, &mut ev));
     cases.extend(crate::props::bodies::cases(args, &mut ev));
     ev.rule = format!(
-        "every member of fixtures/struct/funcs/locals/opcensus x each of {} feature subsets of the 12 optional proposals (body family: the 26 empty/single/all-but-one/all subsets): \
+        "every member of fixtures/struct/funcs/locals/opcensus x each of {} feature subsets of the 12 optional proposals (body family and the triple-dimension struct members: the 26 empty/single/all-but-one/all subsets): \
          reference validator(F) accepts input => accepts output; plus direct MVP encoding checks. non-trivial = output bytes differ from input",
         subs.len()
     );
@@ -129,7 +129,7 @@ pub fn run(args: &Args) -> i32 {
     // the body family is three orders of magnitude larger than the rest: it is checked under the
     // 26 single / all-but-one subsets in both tiers, the other families under every explored subset
     let small = subsets(Tier::Quick);
-    let viol = run_sweep(args, &mut ev, &cases, &|c| if c.family == "body" { check_case(c, &small) } else { check_case(c, &subs) });
+    let viol = run_sweep(args, &mut ev, &cases, &|c| if c.family == "body" || (c.family == "struct" && c.coords.matches(',').count() >= 2) { check_case(c, &small) } else { check_case(c, &subs) });
     let all: Vec<FeatureSet> = if args.tier == Tier::Thorough { subs.clone() } else { subs.clone() };
     finish(args, ev, viol, &|c| check_case(c, &all).violations)
 }
